@@ -100,6 +100,21 @@ Proof.
   - assert (E : ax / sc + s == (ax + sc * s) / sc) by (field; lra). rewrite E, H. reflexivity.
 Qed.
 
+Lemma mul_div_cancel sc a : 0 < sc -> sc * (a / sc) == a.
+Proof. intro H. field. lra. Qed.
+
+Lemma le_scale sc z a : 0 < sc -> z <= a / sc -> sc * z <= a.
+Proof.
+  intros Hsc H. rewrite <- (mul_div_cancel sc a Hsc). rewrite (Qmult_comm sc z), (Qmult_comm sc (a / sc)).
+  apply Qmult_le_compat_r; [exact H | lra].
+Qed.
+
+Lemma lt_scale sc z a : 0 < sc -> z < a / sc -> sc * z < a.
+Proof.
+  intros Hsc H. rewrite <- (mul_div_cancel sc a Hsc). rewrite (Qmult_comm sc z), (Qmult_comm sc (a / sc)).
+  apply Qmult_lt_compat_r; assumption.
+Qed.
+
 Lemma div_nonneg a sc : 0 <= a -> 0 < sc -> 0 <= a / sc.
 Proof. intros Ha Hsc. apply Qle_shift_div_l; [exact Hsc | lra]. Qed.
 
@@ -146,7 +161,7 @@ Section Init.
     rewrite (mapi_nth _ _ k [] row0) by (rewrite valid_len; exact Hk). reflexivity.
   Qed.
 
-  Lemma T0_obj : t_obj T0 = (map Qred w ++ zeros m, 0).
+  Lemma T0_obj : t_obj T0 = (map Qred (scaled_row w) ++ zeros m, 0).
   Proof. reflexivity. Qed.
 
   Lemma unit_vec_length k i : length (unit_vec k i) = k.
@@ -160,18 +175,21 @@ Section Init.
     split.
     - apply Forall_nth. intros k d Hk. change (k < length (t_rows T0))%nat in Hk. rewrite T0_rows_length in Hk. rewrite (nth_indep _ d row0) by (change (k < length (t_rows T0))%nat; rewrite T0_rows_length; exact Hk).
       rewrite T0_row by exact Hk. cbn [rnorm fst]. rewrite map_length, app_length, unit_vec_length, scaled_row_length, valid_rows by exact Hk. reflexivity.
-    - rewrite T0_obj. simpl. rewrite app_length, map_length, zeros_length, w_length. reflexivity.
+    - rewrite T0_obj. cbn [fst]. rewrite app_length, map_length, scaled_row_length, zeros_length, w_length. reflexivity.
   Qed.
 
   (* what it means for (x ++ s), |x| = n, to satisfy the initial tableau *)
   Lemma T0_sat x s z : length x = n ->
     (tab_sat (x ++ s) z T0 <->
-     (forall k, (k < m)%nat -> dot (nth k A []) x + row_scale (nth k A []) * get s k == nth k b 0) /\ dot w x == z).
+     (forall k, (k < m)%nat -> dot (nth k A []) x + row_scale (nth k A []) * get s k == nth k b 0)
+     /\ dot w x == row_scale w * z).
   Proof.
     intro Hx. unfold tab_sat. rewrite T0_obj.
-    assert (Hobj : obj_sat (x ++ s) z (map Qred w ++ zeros m, 0) <-> dot w x == z).
-    { unfold obj_sat. simpl. rewrite dot_app by (rewrite map_length, w_length; lia).
-      rewrite dot_map_Qred, dot_zeros_l. split; intro H; lra. }
+    assert (Hobj : obj_sat (x ++ s) z (map Qred (scaled_row w) ++ zeros m, 0) <-> dot w x == row_scale w * z).
+    { unfold obj_sat. cbn [fst snd]. rewrite dot_app by (rewrite map_length, scaled_row_length, w_length; lia).
+      rewrite dot_map_Qred, dot_zeros_l, dot_scaled_row. pose proof (row_scale_pos w) as Hsc. split; intro H.
+      - rewrite <- (mul_div_cancel (row_scale w) (dot w x) Hsc). assert (E : dot w x / row_scale w == z) by lra. rewrite E. reflexivity.
+      - rewrite H. assert (E : row_scale w * z / row_scale w == z) by (field; lra). lra. }
     assert (Hrow : forall k, (k < m)%nat ->
               (row_sat (x ++ s) (nth k (t_rows T0) row0)
                <-> dot (nth k A []) x + row_scale (nth k A []) * get s k == nth k b 0)).
@@ -216,7 +234,7 @@ Section Init.
       rewrite <- (valid_rows k Hk). rewrite <- (scaled_row_length (nth k A [])). rewrite get_app_r. rewrite get_unit_vec by exact Hi.
       rewrite Nat.eqb_sym. reflexivity.
     - intros i Hi. rewrite seq_length in Hi. rewrite seq_nth by exact Hi. unfold objc. rewrite T0_obj. simpl.
-      replace n with (length (map Qred w)) by (rewrite map_length; apply w_length).
+      replace n with (length (map Qred (scaled_row w))) by (rewrite map_length, scaled_row_length; apply w_length).
       rewrite get_app_r. rewrite get_zeros. reflexivity.
     - intros k Hk. rewrite T0_rows_length in Hk. unfold rhs. rewrite T0_row by exact Hk. rewrite snd_rnorm. cbn [snd].
       apply div_nonneg; [apply b_nonneg | apply row_scale_pos].
@@ -321,8 +339,9 @@ Proof.
     assert (Ly : length y' = n) by (apply pad_length; lia).
     assert (Hrow_eq : forall k, (k < m)%nat -> dot (nth k A []) y' == dot (nth k A []) y).
     { intros k Hk. apply dot_pad; [|lia]. rewrite (valid_rows c A b Hvalid k Hk). fold n. lia. }
-    assert (Hsat' : tab_sat (y' ++ s') (dot w y') T0).
-    { apply (T0_sat minimize c A b Hvalid); [exact Ly|]. split; [|reflexivity].
+    assert (Hsc : 0 < row_scale w) by apply row_scale_pos.
+    assert (Hsat' : tab_sat (y' ++ s') (dot w y' / row_scale w) T0).
+    { apply (T0_sat minimize c A b Hvalid); [exact Ly|]. split; [|fold w; rewrite mul_div_cancel by exact Hsc; reflexivity].
       intros k Hk. fold m in Hk. unfold s', get. rewrite nth_map_seq by exact Hk. cbn [Nat.add].
       pose proof (row_scale_pos (nth k A [])). field. lra. }
     apply Heq in Hsat'. destruct Hsat' as [_ Ho]. unfold obj_sat in Ho.
@@ -335,7 +354,8 @@ Proof.
     pose proof (dot_nonneg _ _ (objc_nonneg _ _ _ Hinv2 Hnone) Hv'n) as Hpos.
     assert (Hwy : dot w y' == dot w y).
     { apply dot_pad; [|lia]. unfold w. rewrite weights_length. fold n. lia. }
-    unfold z in Hobj. lra. }
+    assert (Hz : z <= dot w y' / row_scale w) by (unfold z; lra).
+    pose proof (le_scale _ _ _ Hsc Hz). lra. }
   split.
   - split; [exact Hfeas|]. intros y Hy. specialize (Hopt y Hy). unfold w in Hopt.
     rewrite !weights_dot in Hopt. destruct minimize; lra.
